@@ -11,6 +11,8 @@ EXPLANATION = (
     'Not decided: that a later lookup then succeeds (C05/C09 value-level parts), hence not the numeric "no new bytes" consequence.')
 
 REG = c16.REG
+MGR = 'mdb_shard::shard_file_manager::ShardFileManager::'
+FLUSH = MGR + 'flush::{closure#0}'
 ADD = 'data::shard_interface::SessionShardInterface::add_cas_block'
 
 
@@ -21,6 +23,8 @@ def run(ctx):
     ctx.guarded('R11a', 'who-may-call', lambda: c16.r16a(_Alias(ctx, 'R16a', 'R11a')))
     ctx.guarded('R11b', REG, lambda: r11b(ctx))
     ctx.guarded('R11c', c16.SHARDTASK, lambda: r11c(ctx))
+    ctx.rule('R11d', 'the session shard manager resets its in-memory shard only in flush, inside the same write-guard live range in which that shard was written to disk successfully; add_cas_block records into it under the write guard')
+    ctx.guarded('R11d', FLUSH, lambda: r11d(ctx))
 
 
 class _Alias:
@@ -130,7 +134,7 @@ def r11c(ctx):
             ok, d = propagation(a, s)
             ctx.check(ok, 'R11c', fn, nm + '?', a.loc(s), '%s failure fails the task: %s' % (nm, d))
     # every Ok(()) of the task other than the dry-run early return is dominated by register_shards
-    oks = [(b, si) for (b, si, k, e) in a.ret_sites() if k == 'ok']
+    oks = [(b, si) for (b, si, k, e) in a.ret_sites() if k != 'err']
     dry = edges_where(a, lambda op, l, r: False)
     dry_edges = []
     for b in sorted(a.cfg.reach0):
@@ -160,3 +164,80 @@ def r11c(ctx):
     sp = ap.calls('tokio::task::join_set::JoinSet::spawn')
     ctx.check(bool(sp) and bool(cons) and any(flow.mentions(ap.arg(s, 1), lambda x: ap.rooted_at(x, cons[0])) for s in sp), 'R11c', c16.UPLC, 'spawn(si)', '-',
               'each spawned shard task receives an element of the consolidated shard list')
+
+
+def stores_through(a, guard):
+    """[(block, si, rvalue expr)] whole-value stores `*g = v` through the guard (via deref_mut)"""
+    out = []
+    rc = a.root_call(a.flow.local(guard.local))
+    for b in sorted(a.cfg.reach0):
+        for si, st in enumerate(a.blocks[b]['s']):
+            d = st.get('d')
+            if d and d.get('p') == ['*']:
+                tgt = a.flow.local(d['l'])
+                r2 = a.root_call(tgt)
+                if rc is not None and r2 is not None and r2[3] == rc[3] and tgt[0] == 'call':
+                    out.append((b, si, a.flow.rvalue(st['r'], 0)))
+    return out
+
+
+def r11d(ctx):
+    from . import locks
+    from .core import success_edges, strip_generics as sg
+    F = ctx.F
+    a = an(F.body(FLUSH))
+    fn = FLUSH
+    wg = [g for g in locks.guards(a, ('tokio::sync::rwlock::write_guard::RwLockWriteGuard<',)) if flow.mentions(a.flow.local(g.local), lambda z: z[0] == 'field' and z[2] == 'current_state')]
+    if not ctx.check(len(wg) >= 1, 'R11d', fn, 'write guard', '-', 'flush takes the write guard of current_state',
+                     'flush no longer takes the write guard of the in-memory shard: cannot establish that write-out and reset are atomic'):
+        return
+    resets = []
+    for g in wg:
+        for (b, si, e) in stores_through(a, g):
+            resets.append((g, b, si, e))
+    ctx.check(len(resets) == 1, 'R11d', fn, 'reset', '-', 'exactly one whole-value store into the in-memory shard in flush', 'found %d whole-value stores into the in-memory shard' % len(resets))
+    wds = a.calls('mdb_shard::shard_in_memory::MDBInMemoryShard::write_to_directory')
+    for (g, b, si, e) in resets:
+        grc = a.root_call(a.flow.local(g.local))
+        same = [w for w in wds if a.root_call(a.arg(w, 0)) is not None and a.root_call(a.arg(w, 0))[3] == grc[3]]
+        ok = bool(same) and all(g.holds_at(w) for w in same) and g.holds_at(b)
+        ctx.check(ok, 'R11d', fn, 'one region', a.loc(b, si), 'the shard is written to disk through the same write guard value that is live at the reset (no add can slip between write-out and reset)',
+                  'the in-memory shard is reset outside the lock region in which it was written out: blocks added in between are wiped without ever reaching a shard file')
+        se = []
+        for w in same:
+            se += success_edges(a, w)
+        ctx.check(bool(se) and a.cfg.must_pass(b, via_edges=se), 'R11d', fn, 'write<reset', a.loc(b, si), 'the reset is dominated by the success edge of write_to_directory',
+                  'the in-memory shard can be reset without having been written to disk successfully')
+        ctx.check(e[0] == 'call' and sg(e[1]).endswith('Default>::default') or (e[0] == 'call' and 'default' in sg(e[1])), 'R11d', fn, 'reset.value', a.loc(b, si), 'the value stored is a fresh default shard')
+    # the written shard is then registered in the manager's catalogue
+    regs = [r for r in a.calls(MGR + 'register_shards') if a.awaited(r) is not None]
+    ctx.check(bool(regs) and bool(wds) and flow.mentions(a.arg(regs[0], 1), lambda z: z[0] == 'call' and sg(z[1]).endswith('MDBShardFile::load_from_file')), 'R11d', fn, 'register', a.loc(regs[0]) if regs else '-',
+              'the flushed shard file is loaded and registered in the catalogue')
+    # nobody else replaces / clears the in-memory shard
+    others = []
+    for p, b in F.bodies.items():
+        if b['crate'] != 'mdb_shard' or 'shard_file_manager' not in p or '::tests::' in p or p == FLUSH:
+            continue
+        ab = an(b)
+        for g in locks.guards(ab, ('tokio::sync::rwlock::write_guard::RwLockWriteGuard<',)):
+            if flow.mentions(ab.flow.local(g.local), lambda z: z[0] == 'field' and z[2] == 'current_state'):
+                if stores_through(ab, g):
+                    others.append(p)
+                for c in ab.calls('core::mem::take') + ab.calls('core::mem::replace') + ab.calls('core::mem::swap'):
+                    if ab.root_call(ab.arg(c, 0)) is not None and ab.root_call(ab.arg(c, 0))[3] == ab.root_call(ab.flow.local(g.local))[3]:
+                        others.append(p)
+    ctx.check(not others, 'R11d', 'mdb_shard::shard_file_manager', 'resetters', '-', 'no other function of the manager replaces the in-memory shard', 'in-memory shard replaced in %s' % sorted(set(others)))
+    # add_cas_block records under the write guard
+    ab = an(F.body(MGR + 'add_cas_block::{closure#0}'))
+    gs = [g for g in locks.guards(ab, ('tokio::sync::rwlock::write_guard::RwLockWriteGuard<',)) if flow.mentions(ab.flow.local(g.local), lambda z: z[0] == 'field' and z[2] == 'current_state')]
+    adds = ab.calls('mdb_shard::shard_in_memory::MDBInMemoryShard::add_cas_block')
+    ok = len(gs) == 1 and len(adds) == 1 and gs[0].holds_at(adds[0]) and ab.arg(adds[0], 1)[0] in ('upvar', 'param') and all(ab.cfg.must_pass(r, via_blocks=adds) for (r, si, k, e) in ab.ret_sites() if k != 'err')
+    ctx.check(ok, 'R11d', MGR + 'add_cas_block', 'add', ab.loc(adds[0]) if adds else '-', 'ShardFileManager::add_cas_block hands its argument to the in-memory shard under the write guard on every successful path')
+    if adds:
+        okp, d = propagation(ab, adds[0])
+        ctx.check(okp, 'R11d', MGR + 'add_cas_block', 'add?', ab.loc(adds[0]), 'in-memory add errors propagate: ' + d)
+    fl = [f for f in ab.calls(MGR + 'flush')]
+    for f in fl:
+        ctx.check(ab.awaited(f) is not None and not gs[0].holds_at(f) and f not in gs[0].live, 'R11d', MGR + 'add_cas_block', 'flush.outside', ab.loc(f), 'the size-triggered flush runs after the guard was released (no self-deadlock) and is awaited')
+        okp, d = propagation(ab, f)
+        ctx.check(okp, 'R11d', MGR + 'add_cas_block', 'flush?', ab.loc(f), 'flush errors propagate: ' + d)
